@@ -49,6 +49,8 @@ type FileWrite struct {
 
 // Step is one action of a history.
 type Step struct {
+	// keep (not part of the case): when set, the loaded SpokFile is kept there and used again by the next run
+	keep **file.SpokFile
 	// Cwd (run steps): the working directory of the process while spok runs — one of three scratch
 	// directories beside the project. Where spok is started from has no bearing on the project's cache.
 	Cwd     int            `json:"cwd,omitempty"`
@@ -223,9 +225,17 @@ func doRun(root, src string, st Step, onStart ...func(string)) runResult {
 	if err != nil {
 		return runResult{err: fmt.Errorf("harness: generated spokfile does not parse: %w", err), rec: rec}
 	}
-	sf, err := file.New(tree, root, nopLogger{})
-	if err != nil {
-		return runResult{err: fmt.Errorf("harness: generated spokfile does not load: %w", err), rec: rec}
+	var sf *file.SpokFile
+	if st.keep != nil && *st.keep != nil {
+		sf = *st.keep // the same loaded spokfile is run again (a long-lived caller of the API)
+	} else {
+		sf, err = file.New(tree, root, nopLogger{})
+		if err != nil {
+			return runResult{err: fmt.Errorf("harness: generated spokfile does not load: %w", err), rec: rec}
+		}
+		if st.keep != nil {
+			*st.keep = sf
+		}
 	}
 	cwd := filepath.Join(filepath.Dir(root), fmt.Sprintf("started-in-%d", st.Cwd))
 	if err := os.MkdirAll(cwd, 0o755); err == nil {
